@@ -6,6 +6,7 @@ package main
 
 import (
 	"fmt"
+	"go/ast"
 	"math"
 	"strings"
 
@@ -55,6 +56,18 @@ func main() {
 		}
 	}
 	ex.DefStrList("checkTxsContextCalls", callers)
+	// how checkTxsContext treats a failing coinbase check (it is swallowed below CheckRewardHeight)
+	ast.Inspect(bv.MustFunc("BlockChain.checkTxsContext").Body, func(n ast.Node) bool {
+		if is, ok := n.(*ast.IfStmt); ok && strings.Contains(bv.Src(is.Cond), "CheckRewardHeight") {
+			ex.DefStr("coinbaseErrorHandling", bv.Src(is))
+			return false
+		}
+		return true
+	})
+	fmt.Printf("def checkRewardHeights : List (Nat × Nat) := [(%d, %d), (%d, %d), (%d, %d)]  -- (CheckRewardHeight, DPoSV2StartHeight) mainnet, testnet, regnet\n",
+		config.GetDefaultParams().CheckRewardHeight, config.GetDefaultParams().DPoSV2StartHeight,
+		config.GetDefaultParams().TestNet().CheckRewardHeight, config.GetDefaultParams().TestNet().DPoSV2StartHeight,
+		config.GetDefaultParams().RegNet().CheckRewardHeight, config.GetDefaultParams().RegNet().DPoSV2StartHeight)
 	ex.DefStr("dposRewardExpr", bv.Src(bv.MustFunc("BlockChain.GetBlockDPOSReward").Body))
 	ex.Footer("C11")
 }
